@@ -480,6 +480,11 @@ def main(ctx):
     import c01
     guarded(ctx, 'item accessors (nonce, kid, alg)', 'M', lambda: c01.run(ctx, prog, only=r'^JwsValidationItem::'))
     guarded(ctx, 'base64url codec binding', 'M', lambda: c01.codec_binding(ctx, prog))
+    # the emitted header is the header that was validated: the derived Serialize of the header types leaves a member out only when
+    # it is absent (a value-dependent skip - say of `b64: true` - makes the decoder see another header than the encoder checked)
+    import c14
+    guarded(ctx, 'header serialisation', 'M', lambda: c14.serde_skips(
+        ctx, prog, items=(('JwsHeader', r'jws::header::_::<impl at [^>]*>::serialize$'), ('JwtHeader', r'jwt::header::_::<impl at [^>]*>::serialize$')), replay=REPLAY))
 
     def verification_side():
         prog2, info2 = load(c03.CRATES, src_only=c03.SRC)
